@@ -54,6 +54,11 @@ def series(kind, n, seed):
             o = 100.0 if i % 2 == 0 else 101.0
             cl = 101.0 if i % 2 == 0 else 100.0
             c[i, 1:5] = [o, cl, 101.5, 99.5]
+    elif kind == 'gappy':
+        c = gen.candles({'seed': seed, 'n': n, 'vol': 0.003, 'start': 100.0, 'gap_p': 0.35, 'gap_size': 0.02, 'zero_vol_p': 0.0})
+    elif kind == 'lattice':
+        # coarse tick grid: ties between highs / lows / closes are frequent
+        c = gen.candles({'seed': seed, 'n': n, 'vol': 0.006, 'start': 100.0, 'lattice': 0.5, 'zero_vol_p': 0.0})
     elif kind == 'huge':
         c = gen.candles({'seed': seed, 'n': n, 'vol': 0.01, 'start': 3.1e7, 'zero_vol_p': 0.0})
     elif kind == 'tiny':
@@ -77,6 +82,17 @@ def param_sets(name, sig, rng, how_many, small=False):
                 if k not in ('candles', 'sequential') and p.default is not inspect.Parameter.empty}
     out = [dict()]
     periods = [2, 3, 5, 8, 14, 21, 30] if small else [2, 3, 5, 8, 14, 21, 34, 60]
+
+    def is_period(lk, d):
+        return isinstance(d, int) and not isinstance(d, bool) and 'matype' not in lk and lk != 'devtype' and (
+            any(x in lk for x in ('period', 'length', 'window', 'range', 'lookback', 'bars')) or lk in ('p', 'q', 'r', 's', 'u', 'k', 'd', 'order'))
+
+    # boundary sets first: every period-like parameter at the smallest legal values
+    if how_many > 0:
+        for v in (1, 2, 3):
+            kw = {k: v for k, d in defaults.items() if is_period(k.lower(), d)}
+            if kw:
+                out.append(kw)
     for _ in range(how_many):
         kw = {}
         for k, d in defaults.items():
